@@ -44,6 +44,19 @@ from . import _n_word_max, _max_error
 
 _NUMPY_HANDLED_FUNCTIONS = {}
 
+def _raw_bin_str(val):
+    """
+    Returns binary string(s) `val` without the fractional point: as a raw value the digits are the code itself,
+    wherever the point was rendered.
+    """
+    if isinstance(val, str):
+        return val.replace('.', '') if 'b' in val[:2] else val
+    if isinstance(val, (list, tuple)):
+        return type(val)(_raw_bin_str(v) for v in val)
+    if isinstance(val, np.ndarray) and val.dtype.kind in 'US':
+        return _raw_bin_str(val.tolist())
+    return val
+
 def _shift_raw(val, shift, n_word):
     """
     Returns raw value(s) `val` (of a word of `n_word` bits) multiplied by 2**shift.
@@ -754,7 +767,7 @@ class Fxp():
                 if not raw:
                     val, signed, n_word, n_frac = utils.str2num(val, self.signed, self.n_word, self.n_frac, return_sizes=True)
                 else:
-                    val, signed, n_word, _ = utils.str2num(val, self.signed, self.n_word, None, return_sizes=True)
+                    val, signed, n_word, _ = utils.str2num(_raw_bin_str(val), self.signed, self.n_word, None, return_sizes=True)
                     n_frac = self.n_frac
 
                 if raw or (n_frac is not None and n_frac == 0):
@@ -767,7 +780,7 @@ class Fxp():
             if not raw:
                 val, signed, n_word, n_frac = utils.str2num(val, self.signed, self.n_word, self.n_frac, return_sizes=True)
             else:
-                val, signed, n_word, _ = utils.str2num(val, self.signed, self.n_word, None, return_sizes=True)
+                val, signed, n_word, _ = utils.str2num(_raw_bin_str(val), self.signed, self.n_word, None, return_sizes=True)
                 n_frac = self.n_frac
 
         elif isinstance(val, Fraction):
